@@ -574,6 +574,29 @@ func goNameCollision(o observed, e expect) bool {
 	return true
 }
 
+// knownDefectSuffixes are the class suffixes that name a defect model (see judge / goNameCollision).
+var knownDefectSuffixes = []string{
+	"trailing-slash-template-not-routed", "root-template-under-basepath-not-routed",
+	"composite-segment-matched-as-whole-segment", "placeholder-after-literal-prefix-not-routed",
+	"placeholder-names-with-one-go-name",
+}
+
+// judgeIn judges an observation made under a configuration of the library. Debug logging must
+// not change dispatch: the expectations are the same; a failure that is not one of the defects
+// already modelled says which configuration it needs.
+func judgeIn(debug bool, routes []route, method, esc string, o observed) (class, what string, determined bool) {
+	class, what, determined = judge(routes, method, esc, o)
+	if !debug || class == "" {
+		return
+	}
+	for _, k := range knownDefectSuffixes {
+		if strings.Contains(class, "/"+k) {
+			return
+		}
+	}
+	return class + "/debug-logging-on", what + " [middleware.Debug = true]", determined
+}
+
 // judge decides one observation. Returns class ("" = satisfied), text, and whether the case was determined.
 func judge(routes []route, method, esc string, o observed) (class, what string, determined bool) {
 	up := strings.ToUpper(method)
